@@ -81,6 +81,11 @@ class TS:
                         target = d
                 if kinds:
                     return kinds.pop() if len(kinds) == 1 else "?"
+                if target is None:
+                    # a helper defined at module level (e.g. a former closure bound with functools.partial)
+                    mod = getattr(self.func, "_mod", None)
+                    if mod is not None:
+                        target = next((n for n in mod.tree.body if isinstance(n, ast.FunctionDef) and n.name == f.id), None)
         elif isinstance(f, ast.Lambda):
             target = f
         elif isinstance(f, ast.Call) and isinstance(f.func, ast.Name) and f.func.id in self.nested:
